@@ -948,6 +948,23 @@ def check_views(ctx):
                 props.add(fi.name)
     # refreshers: methods all of whose definitions call _base_indices on every normal path
     refresh = {'_base_indices'}
+    # premise of the rule: the re-clip *stores* the clipped indices (a raw read after it sees current values).  When `_base_indices` of the
+    # base view class is a pure read, calling it refreshes nothing: no method is a refresher and every raw read / adjustment stands alone.
+    def writes_back(fi):
+        for x in walk_no_nested(fi.node):
+            tgs = x.targets if isinstance(x, ast.Assign) else [x.target] if isinstance(x, (ast.AugAssign, ast.AnnAssign)) else []
+            for tg in tgs:
+                for y in ast.walk(tg):
+                    if isinstance(y, ast.Attribute) and y.attr in ('_start', '_stop') and norm(y.value) == 'self' and isinstance(y.ctx, ast.Store):
+                        return True
+        return False
+    base_defs = [fi for fi in methods.get('_base_indices', []) if fi.cls == 'FSTView'] or methods.get('_base_indices', [])
+    if not base_defs:
+        raise AnalysisError('view._base_indices not found (anchor vanished)')
+    premise = all(writes_back(fi) for fi in base_defs)
+    ctx.extra['base_indices_writes_back'] = premise
+    if not premise:
+        refresh = set()
 
     def refresh_nodes(cfg):
         out = set()
@@ -1064,7 +1081,7 @@ def check_views(ctx):
                         ctx.check('R2.4', ok, fi.module, fi.qualname, norm(x, 60),
                                   'a raw view index is adjusted without having been re-clipped to the current field length first', x.lineno,
                                   sample={'method': fi.key, 'read': norm(x.target)})
-    if n < 5:
+    if n < 5 and premise:
         raise AnalysisError(f'only {n} raw view index reads found')
 
 
